@@ -220,7 +220,7 @@ func VerifC14Lifecycle() {
 	mode := vfModes[zzvf.Choose("mode", len(vfModes))]
 	steps := 4
 	if zzvf.Thorough() {
-		steps = 6
+		steps = 5
 	}
 	t := w.newTx(mode)
 	state := lcNew
